@@ -153,9 +153,32 @@ def emit_reload(R):
     b = R.sub("R5-bool-vector", r'\bt\.loaded\s*=\s*std::vector<bool>\(\s*\(size_t\)\s*t\.points\.getNumIndexes\(\)\s*,\s*false\s*\)\s*;', 'tsg_loaded_assign(t, (size_t) t->npoints, false);', b)
     b = R.sub("R5g-getSlot", r'\bt\.points\.getSlot\(\s*p\.point\s*\)', 'tsg_getSlot(t, p)', b)
     b = R.sub("R5-bool-subscript", r'\bt\.loaded\[([^\]]+)\]', r't->loaded[tsg_loaded_index(t, \1)]', b)
+    b = R.sub("R7-all-of", r'std::all_of\(\s*t\.loaded\.begin\(\)\s*,\s*t\.loaded\.end\(\)\s*,\s*\[\]\s*\(\s*bool\s+(\w+)\s*\)\s*->\s*bool\s*\{\s*return\s+\1\s*;\s*\}\s*\)', 'tsg_all_true(t)', b)
+    b = R.sub("R5-clear", r'\bt\.loaded\.clear\(\)', 't->loaded_size = 0', b)
     X.check_leftover(b, "reloadPoints")
     R.require({"R6-range-for-list": 3, "R5g-generate": 1, "R5-bool-vector": 1, "R5g-getSlot": 1, "R5-bool-subscript": 1})
     info = {"functions": [{"name": "DynamicConstructorDataGlobal::reloadPoints", "file": p.rel, "line": p.line, "loops": X.count_loops(b)}], "rules_fired": {k: v for k, v in R.counts.items() if v},
             "fidelity": X.fidelity(p.body, b, extra_vocab=["auto", "tensors", "data", "t", "p", "MultiIndexSet", "dummy_set", "num_dimensions", "std", "vector", "int", "bool", "tensor", "points", "MultiIndexManipulations", "generateNestedPoints",
-                                                            "getNumPoints", "loaded", "getNumIndexes", "false", "getSlot", "point", "size_t", "const", "&", ":", "(", ")", "[", "]", ".", "=", ";", ","], slack=40)}
+                                                            "getNumPoints", "loaded", "getNumIndexes", "false", "getSlot", "point", "size_t", "const", "&", ":", "(", ")", "[", "]", ".", "=", ";", ",", "all_of", "begin", "end", "clear", "b", "return", "->"], slack=40)}
     return '#line %d "%s"\nvoid DynamicConstructorDataGlobal_reloadPoints(DynamicConstructorDataGlobal *self)%s\n' % (p.line, X.REPO + "/" + p.rel, b), info
+
+
+def emit_restrict(R):
+    """DynamicConstructorDataGlobal::restrictData (inline in the header): the copy of a grid under construction restricted to an output range."""
+    ht = X.strip_comments(X.read_source(HPP))
+    cls = ht[ht.index("class DynamicConstructorDataGlobal"):]
+    m = re.search(r'void\s+restrictData\s*\(\s*int\s+ibegin\s*,\s*int\s+iend\s*\)\s*(?=\{)', cls)
+    if not m:
+        raise X.ExtractionBreak("DynamicConstructorDataGlobal::restrictData not found")
+    e = X.match_close(cls, m.end())
+    b = cls[m.end():e + 1]
+    src = b
+    b = R.sub("R6-range-for-list", r'for\s*\(\s*auto\s*&\s*(\w+)\s*:\s*data\s*\)', r'for (NodeData *\1 = self->data.bb.next; \1 != NULL; \1 = \1->next)', b)
+    b = R.sub("R5g-slice", r'\bd\.value\s*=\s*std::vector<double>\(\s*d\.value\.begin\(\)\s*\+\s*ibegin\s*,\s*d\.value\.begin\(\)\s*\+\s*iend\s*\)', 'd->value = gvec_slice(d->value, ibegin, iend)', b)
+    b = R.sub("R10-member", r'(?<![\w.>])num_outputs\b', 'self->num_outputs', b)
+    X.check_leftover(b, "restrictData")
+    R.require({"R6-range-for-list": 1, "R5g-slice": 1})
+    line = ht[:ht.index("class DynamicConstructorDataGlobal")].count("\n") + cls[:m.start()].count("\n") + 1
+    info = {"functions": [{"name": "DynamicConstructorDataGlobal::restrictData", "file": HPP, "line": line, "loops": 1}], "rules_fired": {k: v for k, v in R.counts.items() if v},
+            "fidelity": X.fidelity(src, b, extra_vocab=["auto", "d", "data", "value", "std", "vector", "double", "begin", "ibegin", "iend", "num_outputs", "size_t", "&", ":", "+", "=", "(", ")"], slack=12)}
+    return '#line %d "%s"\nvoid DynamicConstructorDataGlobal_restrictData(DynamicConstructorDataGlobal *self, int ibegin, int iend)%s\n' % (line, X.REPO + "/" + HPP, b), info
